@@ -703,6 +703,109 @@ async fn differential_inner(hseed: u64, r: &mut Rng, inst: &ServerInstance, rep:
             return Err(sv(hseed, &ops, "catalogue-untouched", "changed-by-refused-http-requests", json!({"before": before, "after": after})));
         }
     }
+    // the remaining response types, each decoded by the SDK from both transports: tokens, lists, group and client details
+    {
+        let now_us = iggy::utils::timestamp::IggyTimestamp::now().as_micros();
+        for (name, exp) in [("tok-hour", IggyExpiry::ExpireDuration(IggyDuration::from(3_600_000_000u64))), ("tok-never", IggyExpiry::NeverExpire), ("tok-day", IggyExpiry::ExpireDuration(IggyDuration::from(86_400_000_000u64)))] {
+            let via_http = pick(r);
+            ops.push(format!("create_personal_access_token {name} via {}", if via_http { "http" } else { "tcp" }));
+            let c: &dyn Client = if via_http { &http } else { &tcp };
+            rep.eval("C13:e2e-request-accepted");
+            match timed("create_token", c.create_personal_access_token(name, exp)).await? {
+                Ok(t) if !t.token.is_empty() => {}
+                other => return Err(sv(hseed, &ops, "e2e-request-accepted", "create_personal_access_token", json!({"name": name, "got": format!("{other:?}").chars().take(200).collect::<String>()}))),
+            }
+        }
+        let a = timed("get_tokens", tcp.get_personal_access_tokens()).await?;
+        let b = timed("get_tokens", http.get_personal_access_tokens()).await?;
+        rep.eval("C13:e2e-response-agrees");
+        let norm = |v: &Vec<iggy::models::personal_access_token::PersonalAccessTokenInfo>| {
+            let mut x: Vec<(String, Option<u64>)> = v.iter().map(|t| (t.name.clone(), t.expiry_at.map(|e| e.as_micros()))).collect();
+            x.sort();
+            x
+        };
+        let plausible = |v: &Vec<(String, Option<u64>)>| {
+            v.iter().all(|(n, e)| match (n.as_str(), e) {
+                ("tok-never", None) => true,
+                ("tok-hour", Some(e)) => *e >= now_us + 3_500_000_000 && *e <= now_us + 3_700_000_000 + 120_000_000,
+                ("tok-day", Some(e)) => *e >= now_us + 86_300_000_000 && *e <= now_us + 86_500_000_000 + 120_000_000,
+                _ => false,
+            }) && v.len() == 3
+        };
+        match (&a, &b) {
+            (Ok(x), Ok(y)) if norm(x) == norm(y) && plausible(&norm(x)) => {}
+            _ => return Err(sv(hseed, &ops, "e2e-response-agrees", "get_personal_access_tokens", json!({"created_at_about_us": now_us, "tcp": format!("{a:?}").chars().take(400).collect::<String>(), "http": format!("{b:?}").chars().take(400).collect::<String>()}))),
+        }
+        // users list
+        let a = timed("get_users", tcp.get_users()).await?;
+        let b = timed("get_users", http.get_users()).await?;
+        rep.eval("C13:e2e-response-agrees");
+        let norm = |v: &Vec<iggy::models::user_info::UserInfo>| {
+            let mut x: Vec<(u32, String, String, u64)> = v.iter().map(|u| (u.id, u.username.clone(), u.status.to_string(), u.created_at.as_micros())).collect();
+            x.sort();
+            x
+        };
+        match (&a, &b) {
+            (Ok(x), Ok(y)) if norm(x) == norm(y) && x.len() == 4 => {}
+            _ => return Err(sv(hseed, &ops, "e2e-response-agrees", "get_users", json!({"tcp": format!("{a:?}").chars().take(400).collect::<String>(), "http": format!("{b:?}").chars().take(400).collect::<String>()}))),
+        }
+        // topics list
+        let a = timed("get_topics", tcp.get_topics(&s1)).await?;
+        let b = timed("get_topics", http.get_topics(&s1)).await?;
+        rep.eval("C13:e2e-response-agrees");
+        let norm = |v: &Vec<iggy::models::topic::Topic>| {
+            let mut x: Vec<Value> = v.iter().map(|t| json!([t.id, t.name, t.size.as_bytes_u64(), t.message_expiry.to_string(), t.compression_algorithm.to_string(), t.max_topic_size.to_string(), t.replication_factor, t.messages_count, t.partitions_count, t.created_at.as_micros()])).collect();
+            x.sort_by_key(|v| v[0].as_u64());
+            x
+        };
+        match (&a, &b) {
+            (Ok(x), Ok(y)) if norm(x) == norm(y) && x.len() == topics.len() => {}
+            _ => return Err(sv(hseed, &ops, "e2e-response-agrees", "get_topics", json!({"tcp": format!("{a:?}").chars().take(500).collect::<String>(), "http": format!("{b:?}").chars().take(500).collect::<String>()}))),
+        }
+        // consumer groups list and details (the TCP connection is a member)
+        let a = timed("get_groups", tcp.get_consumer_groups(&s1, &t1)).await?;
+        let b = timed("get_groups", http.get_consumer_groups(&s1, &t1)).await?;
+        rep.eval("C13:e2e-response-agrees");
+        let norm = |v: &Vec<iggy::models::consumer_group::ConsumerGroup>| {
+            let mut x: Vec<(u32, String, u32, u32)> = v.iter().map(|g| (g.id, g.name.clone(), g.partitions_count, g.members_count)).collect();
+            x.sort();
+            x
+        };
+        match (&a, &b) {
+            (Ok(x), Ok(y)) if norm(x) == norm(y) && x.len() == 1 && x[0].members_count == 1 => {}
+            _ => return Err(sv(hseed, &ops, "e2e-response-agrees", "get_consumer_groups", json!({"tcp": format!("{a:?}"), "http": format!("{b:?}")}))),
+        }
+        let gid = Identifier::named("diff-group").unwrap();
+        let a = timed("get_group", tcp.get_consumer_group(&s1, &t1, &gid)).await?;
+        let b = timed("get_group", http.get_consumer_group(&s1, &t1, &gid)).await?;
+        rep.eval("C13:e2e-response-agrees");
+        let norm = |g: &iggy::models::consumer_group::ConsumerGroupDetails| {
+            let mut m: Vec<(u32, u32, Vec<u32>)> = g.members.iter().map(|m| { let mut p = m.partitions.clone(); p.sort(); (m.id, m.partitions_count, p) }).collect();
+            m.sort();
+            json!([g.id, g.name, g.partitions_count, g.members_count, m])
+        };
+        match (&a, &b) {
+            (Ok(Some(x)), Ok(Some(y))) if norm(x) == norm(y) && x.members.len() == 1 && x.members[0].partitions.len() as u32 == parts => {}
+            _ => return Err(sv(hseed, &ops, "e2e-response-agrees", "get_consumer_group_details", json!({"tcp": format!("{a:?}"), "http": format!("{b:?}"), "partitions": parts}))),
+        }
+        // client details: the TCP connection as seen by itself (get_me), by id over TCP and by id over HTTP
+        let me = timed("get_me", tcp.get_me()).await?;
+        rep.eval("C13:e2e-response-agrees");
+        let Ok(me) = me else {
+            return Err(sv(hseed, &ops, "e2e-response-agrees", "get_me", json!({"tcp": format!("{me:?}")})));
+        };
+        let a = timed("get_client", tcp.get_client(me.client_id)).await?;
+        let b = timed("get_client", http.get_client(me.client_id)).await?;
+        let norm = |c: &iggy::models::client_info::ClientInfoDetails| {
+            let mut g: Vec<(u32, u32, u32)> = c.consumer_groups.iter().map(|g| (g.stream_id, g.topic_id, g.group_id)).collect();
+            g.sort();
+            json!([c.client_id, c.user_id, c.address, c.transport, c.consumer_groups_count, g])
+        };
+        match (&a, &b) {
+            (Ok(Some(x)), Ok(Some(y))) if norm(x) == norm(y) && norm(x) == norm(&me) && x.user_id == Some(1) && x.consumer_groups_count == 1 && x.consumer_groups.len() == 1 && x.transport.to_lowercase() == "tcp" => {}
+            _ => return Err(sv(hseed, &ops, "e2e-response-agrees", "get_client", json!({"get_me": norm(&me), "tcp": format!("{a:?}"), "http": format!("{b:?}")}))),
+        }
+    }
     // statistics and lists over both transports
     let a = timed("get_stats", tcp.get_stats()).await?;
     let b = timed("get_stats", http.get_stats()).await?;
